@@ -194,8 +194,22 @@ def build_harness():
     return res
 
 
-def harness_bin():
-    return os.path.join(HARNESS, 'target', 'release', 'circ-verif-harness')
+def harness_bin(profile='release'):
+    return os.path.join(HARNESS, 'target', profile, 'circ-verif-harness')
+
+
+def build_harness_profile(profile):
+    """second build of the harness with the crate's debug assertions on (profile dbg in harness/Cargo.toml)"""
+    key = 'harness-' + profile
+    if key in _built:
+        return _built[key]
+    f = build_harness()
+    if f:
+        return f
+    rc, out = sh("cargo build --profile %s --offline 2>&1" % profile, cwd=HARNESS, timeout=1200)
+    res = None if rc == 0 else Failure('build', 'harness (profile %s)' % profile, out)
+    _built[key] = res
+    return res
 
 
 def build_driver():
